@@ -215,7 +215,7 @@ struct Env {
 }
 
 fn load(env: &Env, yaml: &str) -> Option<config::SharedConfig> {
-    catch(|| env.rt.block_on(config::verif_load_config_from_string(yaml)).ok()).flatten()
+    catch(|| config::verif_load_config_from_string(yaml).ok()).flatten()
 }
 
 fn perm_of(op: u64) -> acl::PermissionType {
@@ -576,7 +576,7 @@ fn make_env() -> Env {
     let rt = tokio::runtime::Builder::new_current_thread().enable_all().build().unwrap();
     let r = catch(|| {
         rt.block_on(async {
-            let conf = config::verif_load_config_from_string("---\nacls: []\n").await.map_err(|e| e.to_string())?;
+            let conf = config::verif_load_config_from_string("---\nacls: []\n").map_err(|e| e.to_string())?;
             let netinfo = tokio::time::timeout(std::time::Duration::from_secs(10), erbium_net::netinfo::SharedNetInfo::new())
                 .await
                 .map_err(|_| "netinfo timeout".to_string())?;
